@@ -103,7 +103,7 @@ var commonReal = []string{"the whole gohessian package (instrumented scratch cop
 var meta = map[string]*propMeta{
 	"C15": {
 		Level: "fault_enumeration", QuickRuns: 2400, ThoroughRuns: 80000,
-		Rule: "one run = a seeded stream of 1..4 zoo values x one of 4 documented encode entry points; for it EVERY index k of the k-th Write x 9 fault kinds {err once, err from k on, short count + ErrShortWrite, short count + nil, short by exactly one byte + nil, io.EOF once, a temporary error once, a wrapper error without a cause once, a full count together with an error} is injected on a fresh instance (exhaustive per run). evaluations = fault injections performed. A run is non-trivial when at least one injected fault actually fired; distinct = distinct fingerprints (entry point, write count, hash of the fault-free bytes) among those runs.",
+		Rule: "one run = a seeded stream of 1..4 zoo values x one of 4 documented encode entry points; for it EVERY index k of the k-th Write x 9 fault kinds {err once, err from k on, short count + ErrShortWrite, short count + nil, short by exactly one byte + nil, io.EOF once, a temporary error once, a wrapper error without a cause once, a full count together with an error} is injected on a fresh instance (exhaustive per run); one destination in three also offers WriteByte / WriteString / Flush. Oracles: a call during which a fault fired returns an error; a call that returns nil next to a faulted one delivered exactly its control bytes (one-shot entry points: also after a failed call; streams: until the first fault). evaluations = fault injections performed. A run is non-trivial when at least one injected fault actually fired; distinct = distinct fingerprints (entry point, write count, hash of the fault-free bytes) among those runs.",
 		Assumptions: []string{"values are drawn from the harness zoo (see sim/zoo.go); runs whose fault-free control returns an error are skipped and counted, not reported",
 			"a short count on a zero-length write is impossible and is not injected"},
 		Real: commonReal, Simulated: []string{"destination io.Writer (fault-injecting)", "map iteration order inside writeMap (seeded)", "logger (no-op)"},
@@ -111,16 +111,17 @@ var meta = map[string]*propMeta{
 	},
 	"C17": {
 		Level: "exploration", Race: true, QuickRuns: 6000, ThoroughRuns: 150000,
-		Rule: "one run = one pool (NewSerializerPool / NewEncoderPool / NewDecoderPool, size 0..8) and 1..64 client tasks with drawn Get/use/Return scripts (a task may hold up to 4 objects), executed under the seeded cooperative scheduler (random / round-robin / PCT, mean quantum 1..100 library statements, preemption inside Get and Return), optionally with stalled and abandoning holders; followed by a drain of size+2 Gets. Checked: ownership table after every event, fake-clock block detection, caller's own statements per call, porcupine on the recorded history against a nondeterministic pool model, race detector. A run is non-trivial when at least one context switch or scheduler fault happened; distinct = distinct fingerprints of the scheduling + event log.",
+		Rule: "one run = one pool (NewSerializerPool / NewEncoderPool / NewDecoderPool, size 0..8) and 1..64 client tasks with drawn Get/use/Return scripts (a task may hold up to 4 objects), executed under the seeded cooperative scheduler (random / round-robin / PCT, mean quantum 1..100 library statements, preemption inside Get and Return), optionally with stalled and abandoning holders, with callers' idle periods of 1 ms .. 45 min on the fake clock (one run in three) and with a sibling pool of the same kind over the same maps (one run in four; an object must never leave a pool other than the one that produced it); followed by a drain of size+2 Gets per pool. Checked: ownership table after every event, fake-clock block detection, caller's own statements per call, porcupine on the recorded history against a nondeterministic pool model, race detector. A run is non-trivial when at least one context switch or scheduler fault happened; distinct = distinct fingerprints of the scheduling + event log.",
 		Assumptions: []string{"objects are identified by pointer and kept reachable until the run ends", "a history on which porcupine times out (8 s) is inconclusive: counted, never reported, never a pass",
-			"preemption is at statement granularity (instrumented copy); intra-statement conflicts are the race detector's job"},
+			"preemption is at statement granularity (instrumented copy); intra-statement conflicts are the race detector's job",
+			"the simulator schedules caller tasks only: a library that starts goroutines of its own, or keeps a channel / timer from one simulation run to the next, ends the check with exit 2 (no verdict)"},
 		Real:      append([]string{"pool.go and the factories (real encoders / decoders / serializers)", "Go race detector (made schedule-deterministic by the RaceDisable bracket)", "porcupine v1.3.0"}, commonReal...),
-		Simulated: []string{"caller goroutine scheduling (one task unparked at a time, choice stream decides)", "fake clock (testing/synctest) for block detection", "logger (no-op)"},
+		Simulated: []string{"caller goroutine scheduling (one task unparked at a time, choice stream decides)", "fake clock (testing/synctest): block detection and callers' idle periods", "logger (no-op)"},
 		EvalsAre:  "simulated runs",
 	},
 	"C06": {
 		Level: "exploration", QuickRuns: 12000, ThoroughRuns: 400000,
-		Rule: "one run = a stream of 1..50 seeded zoo values of mixed types (shared pointers also across values, >16 classes, strings / binaries around the chunk sizes) written by a writer task through one of 3 documented streaming entry-point pairs into a simulated pipe and read by a reader task, under the seeded scheduler (random / round-robin / PCT, mean quantum 1..1000 statements, optional stalls). The pipe cuts writes into segments with delivery delays, serves short reads, blocks the reader, may return (0,nil) once or data+EOF, optionally sits under a real bufio.Reader of size 16..4096, and optionally runs in lock-step (writer waits for the reader's ack). Oracles: i-th read equals the i-th written value up to the documented normalisations incl. pointer identity across values; bytes consumed after read i == end offset of value i (exact framing); no internal carrier types; no error / panic on a healthy stream; no deadlock (over-read in lock-step) and completion within the step budget. Non-trivial = at least one cut, short read, reader block or context switch; distinct = distinct (schedule, stream) fingerprints.",
+		Rule: "one run = a stream of 1..50 seeded zoo values of mixed types (shared pointers also across values, >16 classes, strings / binaries around the chunk sizes) written by a writer task through one of 3 documented streaming entry-point pairs into a simulated pipe and read by a reader task, under the seeded scheduler (random / round-robin / PCT, mean quantum 1..1000 statements, optional stalls). The pipe cuts writes into segments with delivery delays, serves short reads, blocks the reader, may return (0,nil) once or data+EOF, optionally sits under a real bufio.Reader of size 16..4096, and optionally runs in lock-step (writer waits for the reader's ack). One run in five starts the stream on instances that have already carried another stream (Reset / WriteTo / ReadFrom on used instances); values include untyped containers and now and then a list of 4095..20001 elements. Oracles: i-th read equals the i-th written value up to the documented normalisations incl. pointer identity across values; bytes consumed after read i == end offset of value i (exact framing); no internal carrier types; no error / panic on a healthy stream; no deadlock (over-read in lock-step) and completion within the step budget. Non-trivial = at least one cut, short read, reader block or context switch; distinct = distinct (schedule, stream) fingerprints.",
 		Assumptions: []string{"values are drawn from the core domain of DESIGN.md section 5 (shapes that are known not to survive even a one-shot round trip are listed as known findings or excluded there)",
 			"expected value boundaries come from encoding the same values alone through an identical encoder (the encoder is deterministic once map order is seeded)"},
 		Real: append([]string{"bufio.Reader (when drawn)"}, commonReal...), Simulated: []string{"byte pipe between encoder and decoder (segmentation, delays, short reads, blocking, lock-step acks)", "writer / reader task scheduling", "map iteration order (seeded)", "logger (no-op)"},
@@ -128,7 +129,7 @@ var meta = map[string]*propMeta{
 	},
 	"C11": {
 		Level: "exploration", QuickRuns: 16000, ThoroughRuns: 400000,
-		Rule:        "one run = one instance (Serializer or Encoder+Decoder over private copies of the complete maps) driven through a seeded history of 0..30 calls {encode, encode of an unrepresentable value, WriteTo aborted half-way by a writer fault at a drawn Write index and kind, decode, decode of a cut/reset/damaged stream (possibly panicking; harness recovers), streaming writes / reads, Reset}, each with a different drawn value; then a probe {Encode/ToBytes, WriteTo, Decode/ToObject, ReadFrom} on the used instance and on a fresh one: bytes, canonical value (incl. dynamic types and pointer identity) and masked error must be identical. Around every call the value passed in, the bytes passed in and both maps are snapshotted and compared; results of earlier calls are re-compared after every later call. 30% of the runs instead enumerate EVERY abort point (every Write index x 9 kinds / every cut offset) of one value followed by a probe. evaluations = probe comparisons. Non-trivial = history non-empty or enumerating mode; distinct = distinct (history, draws) fingerprints.",
+		Rule:        "one run = one instance (Serializer or Encoder+Decoder over private copies of the complete maps) driven through a seeded history of 0..30 calls {encode, encode of an unrepresentable value, WriteTo aborted half-way by a writer fault at a drawn Write index and kind, decode, decode of a cut/reset/damaged stream (possibly panicking; harness recovers), streaming writes / reads (also continued until a read fails), Reset, the caller changing a registration (Register* or a write to its map; the reference instance receives the same calls)}, each with a drawn value (sometimes the previous one again, sometimes a message with 9..24 classes); then a probe {Encode/ToBytes, WriteTo, Decode/ToObject, ReadFrom} on the used instance and on a fresh one: bytes, canonical value (incl. dynamic types and pointer identity) and masked error must be identical. Around every call the value passed in, the bytes passed in and both maps are snapshotted and compared; results of earlier calls are re-compared after every later call. 30% of the runs instead enumerate EVERY abort point (every Write index x 9 kinds / every cut offset) of one value followed by a probe. evaluations = probe comparisons. Non-trivial = history non-empty or enumerating mode; distinct = distinct (history, draws) fingerprints.",
 		Assumptions: []string{"map iteration order inside writeMap is pinned by the instrumentation seam, so byte equality is meaningful", "error texts are compared with pointer values masked"},
 		Real:        append([]string{"bufio.Reader, bytes.Buffer"}, commonReal...), Simulated: []string{"destination io.Writer (fault-injecting)", "source reader (cut / reset / damaged)", "map iteration order (seeded)", "logger (no-op)"},
 		EvalsAre: "probe comparisons (used instance vs fresh instance)",
@@ -138,7 +139,8 @@ var meta = map[string]*propMeta{
 		Rule: "one run = 1..4 shared read-only zoo values (incl. cyclic graphs), one shared type map + name map, N = 2..64 caller tasks each driving its own Serializer or Encoder+Decoder (constructed directly, or obtained from shared pools of size 0..8 and returned) through a drawn script of 1..6 ops {ToBytes, ToObject, WriteTo+ReadFrom, 2-value stream}; all executed under the seeded cooperative scheduler (random / round-robin / PCT, mean quantum 1..100 statements, optional stalls) in a -race build whose hand-off is hidden from the detector. Oracles: every op result equals the result of the same op run alone on a fresh instance (bytes / canonical value rendering incl. pointer identity / masked error text), zero race reports, shared inputs and maps unchanged. A run is non-trivial when at least one context switch happened inside library code; distinct = distinct scheduling fingerprints.",
 		Assumptions: []string{"a result mismatch that also shows when the same scripts run strictly one task after another is a reuse defect (C11), counted as a probe and not reported under C12",
 			"conflicts are found only on paths the scripts execute; the statement's static clause (no write to package-level state anywhere reachable) is not decided by this technique",
-			"preemption is at statement granularity; intra-statement conflicts are found by the race detector, not by the result oracle"},
+			"preemption is at statement granularity; intra-statement conflicts are found by the race detector, not by the result oracle",
+			"the simulator schedules caller tasks only: a library that starts goroutines of its own ends the check with exit 2 (no verdict)"},
 		Real:      append([]string{"pool.go (when pooled)", "bufio.Reader, bytes.Buffer", "Go race detector (schedule-deterministic through the RaceDisable bracket)"}, commonReal...),
 		Simulated: []string{"caller goroutine scheduling", "fake clock (testing/synctest) for block detection", "map iteration order inside writeMap (seeded)", "logger (no-op)"},
 		EvalsAre:  "simulated runs",
@@ -146,7 +148,7 @@ var meta = map[string]*propMeta{
 	"C14": {
 		Level: "exploration", QuickRuns: 3200, ThoroughRuns: 60000, MemLimitKB: 6 << 20,
 		Rule: "one run = a valid stream of 1..4 seeded zoo values produced by the real encoder x one of 7 documented decode entry points x a drawn type map (complete / empty / partial / shuffled); the transport then delivers (a) the undamaged stream, (b) EVERY prefix of it ended by EOF and by a non-EOF reset, and every third prefix ended by a peer gone silent (a temporary error on every further read) (all cut offsets; strided only for long streams), (c) 24 (quick) / 64 (thorough) drawn structure-aware damage plans of 1..3 faults (flip, set-to-tag, drop, dup, swap, insert, noise) biased to the offsets where the encoder started a write. evaluations = damaged decodes. A run is non-trivial when a fault changed the delivered stream; distinct = distinct (entry point, type-map kind, valid stream hash).",
-		Assumptions: []string{"time is measured in executed library statements (instrumented copy), memory with runtime/metrics /gc/heap/allocs:bytes; budgets are 100x (time) and 30x + 1 MiB (memory) the largest per-byte ratio measured on 400 undamaged streams in the same process, clamped to fixed ceilings",
+		Assumptions: []string{"time is measured in executed library statements (instrumented copy), memory with runtime/metrics /gc/heap/allocs:bytes plus the growth of /memory/classes/heap/stacks:bytes around the decode (each decode runs on a goroutine of its own); goroutines alive 2 s after a run's last decode returned are a leak; budgets are 100x (time) and 30x + 1 MiB (memory) the largest per-byte ratio measured on 400 undamaged streams in the same process, clamped to fixed ceilings",
 			"workers run under ulimit -v 6 GiB and a wall-clock watchdog; a worker death is attributed to the run in flight and must reproduce from (seed, run) before it is reported"},
 		Real: append([]string{"bufio.Reader (drawn size) in the bufio entry point"}, commonReal...), Simulated: []string{"sender->decoder transport (SimReader without read-ahead, fault plans)", "simulated clock = executed statements", "logger (no-op)", "map iteration order in the sender (seeded)"},
 		EvalsAre: "damaged decodes",
